@@ -1859,5 +1859,215 @@ theorem UserEvents_of_B {ops : List Op} (h : userEventsB ops = true) : UserEvent
     simp only [Bool.not_eq_true'] at this
     rw [List.isPrefixOf_iff_prefix.mpr hp] at this; cases this
 
+/-! ### machines with `model_override`: only attributes the model defines are replaced -/
+
+/-- "nothing was added": same class, and a name the model did not define (missing or None) is still
+not defined -/
+structure TKept (attr : Name) (o0 o : Obj) : Prop where
+  cls : o.cls = o0.cls
+  unb : ∀ n, n ≠ attr → o0.unbound n = true → o.unbound n = true
+
+theorem TKept.refl (attr : Name) (o : Obj) : TKept attr o o := ⟨rfl, fun _ _ h => h⟩
+
+theorem unbound_checkedAssign_true (o : Obj) (n n' : Name) (b : Binding) (h : o.unbound n' = true) :
+    (Helpers.checkedAssign true o n b).unbound n' = true := by
+  by_cases hn : n' = n
+  · subst hn
+    have : Helpers.checkedAssign true o n' b = o := by unfold Helpers.checkedAssign; simp [h]
+    rw [this]; exact h
+  · unfold Obj.unbound at h ⊢
+    rw [getattr_checkedAssign_ne _ _ _ _ _ hn]; exact h
+
+theorem TKept.checkedAssign {attr : Name} {o0 o : Obj} (h : TKept attr o0 o) (n : Name) (b : Binding) :
+    TKept attr o0 (Helpers.checkedAssign true o n b) :=
+  ⟨by simpa using h.cls, fun n' hn h0 => unbound_checkedAssign_true o n n' b (h.unb n' hn h0)⟩
+
+theorem TKept.setState {attr : Name} {o0 o : Obj} (h : TKept attr o0 o) (b : Binding) :
+    TKept attr o0 (o.setattr attr b) :=
+  ⟨h.cls, fun n hn h0 => by
+    have := h.unb n hn h0
+    unfold Obj.unbound at this ⊢
+    rw [getattr_setattr_ne _ _ _ _ hn]; exact this⟩
+
+theorem TKept.dropInst {attr : Name} {o0 o : Obj} (h : TKept attr o0 o) (e : Name)
+    (he : o0.unbound e = true → o0.getattr e = none) : TKept attr o0 (o.dropInst e) := by
+  refine ⟨h.cls, ?_⟩
+  intro n hn h0
+  by_cases hne : n = e
+  · subst hne
+    have hc : kget n o.cls = none := by rw [h.cls]; exact (getattr_none_split (he h0)).2
+    simp [Obj.unbound, Obj.getattr, Obj.dropInst, kget_kdel_self, hc]
+  · have := h.unb n hn h0
+    unfold Obj.unbound at this ⊢
+    rw [getattr_dropInst_ne _ _ _ hne]; exact this
+
+def TInv (P : Nat → Obj → Prop) (hm : HM) : Prop :=
+  ∀ m o, (m, o) ∈ hm.objs → ∃ o0, P m o0 ∧ TKept hm.attr o0 o
+
+theorem TInv.addTransition {P : Nat → Obj → Prop} {hm : HM} (h : TInv P hm) (hov : hm.override = true)
+    (e : Name) (src : Src) (dst : Dst) (pass : Bool) : TInv P (addTransition hm e src dst pass).1 := by
+  by_cases hne : e = hm.attr
+  · subst hne; rw [addTransition_attr_raises]; exact h
+  · have sh := (addTransition_shape hm e src dst pass hne).2.1
+    intro m o hmo
+    rw [sh.objs] at hmo
+    rw [sh.attr]
+    split at hmo
+    · exact h m o hmo
+    · obtain ⟨o1, h1, rfl⟩ := mem_map_snd hmo
+      obtain ⟨o0, hp, hk⟩ := h m o1 h1
+      rw [hov]
+      exact ⟨o0, hp, by unfold addTriggerToModel; exact (hk.checkedAssign _ _).checkedAssign _ _⟩
+
+theorem autoLoop_tinv {P : Nat → Obj → Prop} (s : Name) : ∀ (l : List Name) (h : HM), h.override = true → TInv P h →
+    TInv P (autoLoop s l h).1
+  | [], h, _, hi => hi
+  | a :: r, h, hov, hi => by
+    unfold autoLoop
+    have h1 := hi.addTransition hov (toName h.attr a) (if a = s then .all else .one s) (.to a) true
+    have hc := addTransition_consts h (toName h.attr a) (if a = s then .all else .one s) (.to a) true
+    cases hr : Helpers.addTransition h (toName h.attr a) (if a = s then Src.all else Src.one s) (Dst.to a) true with
+    | mk h' err =>
+      rw [hr] at h1 hc
+      cases err with
+      | none => exact autoLoop_tinv s r h' (hc.override.trans hov) h1
+      | some e => exact h1
+
+theorem TInv.addState {P : Nat → Obj → Prop} {hm : HM} (h : TInv P hm) (hov : hm.override = true) (s : Name) :
+    TInv P (addState hm s).1 := by
+  have hcore : TInv P (addStateCore hm s) := by
+    intro m o hmo
+    obtain ⟨o1, h1, rfl⟩ := mem_map_snd (f := addModelToState hm.override hm.attr s) hmo
+    obtain ⟨o0, hp, hk⟩ := h m o1 h1
+    rw [hov]
+    exact ⟨o0, hp, by unfold addModelToState; exact hk.checkedAssign _ _⟩
+  rw [addState_eq]; split
+  · exact autoLoop_tinv s _ _ hov hcore
+  · exact hcore
+
+theorem TInv.setInitial {P : Nat → Obj → Prop} {hm : HM} (h : TInv P hm) (hov : hm.override = true) (s : Name) :
+    TInv P (setInitial hm s).1 := by
+  unfold Helpers.setInitial
+  by_cases hs : s ∈ hm.states
+  · simp only [hs, if_true]; exact h
+  · simp only [hs, if_false]
+    have hi := h.addState hov s
+    cases hr : Helpers.addState hm s with
+    | mk h' err =>
+      rw [hr] at hi
+      cases err with
+      | some e => exact hi
+      | none => exact hi
+
+theorem fold_addTrigger_tkept {attr : Name} {o0 : Obj} : ∀ (l : List (Name × List Tr)) (o : Obj), TKept attr o0 o →
+    TKept attr o0 (l.foldl (fun o ev => addTriggerToModel true ev.1 o) o)
+  | [], _, h => h
+  | ev :: r, o, h => by
+    simp only [List.foldl_cons]
+    exact fold_addTrigger_tkept r _ (by unfold addTriggerToModel; exact (h.checkedAssign _ _).checkedAssign _ _)
+
+theorem fold_addModelToState_tkept {attr : Name} {o0 : Obj} : ∀ (l : List Name) (o : Obj), TKept attr o0 o →
+    TKept attr o0 (l.foldl (fun o s => addModelToState true attr s o) o)
+  | [], _, h => h
+  | s :: r, o, h => by
+    simp only [List.foldl_cons]
+    exact fold_addModelToState_tkept r _ (by unfold addModelToState; exact h.checkedAssign _ _)
+
+theorem TInv.addModel {P : Nat → Obj → Prop} {hm : HM} (h : TInv P hm) (hov : hm.override = true)
+    (m : Nat) (o : Obj) (hp : P m o) : TInv P (addModel hm m o).1 := by
+  unfold Helpers.addModel
+  cases hi : hm.initial with
+  | none => exact h
+  | some i =>
+    simp only
+    cases hk : kget m hm.objs with
+    | some x => simpa using h
+    | none =>
+      simp only [Option.isSome_none, Bool.false_eq_true, if_false]
+      split
+      · intro m' o' hmo
+        rcases List.mem_append.mp hmo with h1 | h1
+        · exact h m' o' h1
+        · simp only [List.mem_singleton, Prod.mk.injEq] at h1
+          obtain ⟨rfl, rfl⟩ := h1
+          refine ⟨o, hp, TKept.setState ?_ _⟩
+          unfold bindModel
+          rw [hov]
+          exact fold_addModelToState_tkept _ _ (fold_addTrigger_tkept _ _
+            (((TKept.refl _ o).checkedAssign _ _).checkedAssign _ _))
+      · exact h
+
+theorem TInv.removeTransition {P : Nat → Obj → Prop} {hm : HM} (h : TInv P hm) (e : Name) (src dst : Option Name)
+    (hr : ∀ m o0, P m o0 → o0.unbound e = true → o0.getattr e = none) : TInv P (removeTransition hm e src dst).1 := by
+  unfold Helpers.removeTransition
+  cases hk : kget e hm.events with
+  | none => exact h
+  | some ts =>
+    simp only
+    cases hf : ts.filter (keepTr src dst) with
+    | cons t keep => exact h
+    | nil =>
+      simp only
+      obtain ⟨_, ia, _⟩ := delLoop_spec e hm.objs
+      have key : ∀ m o', (m, o') ∈ (delLoop e hm.objs).1 → ∃ o0, P m o0 ∧ TKept hm.attr o0 o' := by
+        intro m o' hmo
+        obtain ⟨o, ho, hc⟩ := ia m o' hmo
+        obtain ⟨o0, hp, hkk⟩ := h m o ho
+        rcases hc with h1 | ⟨h1, _⟩
+        · rw [h1]; exact ⟨o0, hp, hkk⟩
+        · rw [h1]; exact ⟨o0, hp, hkk.dropInst e (hr m o0 hp)⟩
+      split <;> exact key
+
+theorem TInv.fire {P : Nat → Obj → Prop} {hm : HM} (h : TInv P hm) (m : Nat) (e : Name) :
+    TInv P (fire hm m e).1 := by
+  unfold Helpers.fire
+  split
+  · exact h
+  · rename_i o hko
+    split
+    · exact h
+    · split
+      · exact h
+      · split
+        · exact h
+        · split
+          · exact h
+          · split
+            · exact h
+            · split
+              · exact h
+              · split
+                · have hmo : (m, o) ∈ hm.objs := kget_mem _ _ _ hko
+                  intro m' o' hmo'
+                  rcases mem_kset hmo' with ⟨rfl, rfl⟩ | h'
+                  · obtain ⟨o0, hp, hk⟩ := h m' o hmo
+                    exact ⟨o0, hp, hk.setState _⟩
+                  · exact h m' o' h'
+                · exact h
+
+/-- hypotheses on a history with `model_override`: a removed event is not named like an attribute a model
+defines as None (such an attribute is deleted by `delattr` and may uncover a class attribute) -/
+structure TOps (ops all : List Op) : Prop where
+  rem : ∀ e src dst, Op.removeTransition e src dst ∈ ops →
+    ∀ m o0, Op.addModel m o0 ∈ all → o0.unbound e = true → o0.getattr e = none
+  sub : ∀ op ∈ ops, op ∈ all
+
+theorem TInv.run (all : List Op) : ∀ (ops : List Op) (hm : HM), hm.override = true →
+    TInv (fun m o => Op.addModel m o ∈ all) hm → TOps ops all →
+    TInv (fun m o => Op.addModel m o ∈ all) (run hm ops)
+  | [], _, _, h, _ => h
+  | op :: r, hm, hov, h, hf => by
+    unfold Helpers.run
+    have hc := applyOp_consts hm op
+    refine TInv.run all r _ (hc.override.trans hov) ?_ ⟨fun e s d hm' => hf.rem e s d (List.mem_cons_of_mem _ hm'),
+      fun op' h' => hf.sub op' (List.mem_cons_of_mem _ h')⟩
+    cases op with
+    | setInitial s => exact h.setInitial hov s
+    | addState s => exact h.addState hov s
+    | addTransition e src dst pass => exact h.addTransition hov e src dst pass
+    | removeTransition e src dst => exact h.removeTransition e src dst (hf.rem e src dst (List.mem_cons_self ..))
+    | addModel m o => exact h.addModel hov m o (hf.sub _ (List.mem_cons_self ..))
+    | fire m e => exact h.fire m e
+
 end Helpers
 end TM
